@@ -33,12 +33,13 @@ type rsCase struct {
 	Order     []string          `json:"observed_first_cycle_order,omitempty"`
 	PriorInit *facts.State      `json:"earlier_call_facts,omitempty"`
 	PriorMax  uint64            `json:"earlier_call_max_cycle,omitempty"`
+	PriorSame bool              `json:"earlier_call_on_same_data_context,omitempty"`
 }
 
 func toRSCase(c *val.Case) *rsCase {
 	return &rsCase{Rules: gast.EncodeRules(c.Rules), Text: c.Text, Texts: c.Texts, SoloTexts: c.SoloTexts, Init: c.Init, MaxCycle: c.MaxCycle,
 		ErrOnFail: c.ErrOnFail, ViaGRB: c.ViaGRB, Listeners: c.Listeners, FailAt: c.ProbeFailAt, FailMode: int(c.ProbeMode),
-		PriorInit: c.PriorInit, PriorMax: c.PriorMaxCycle}
+		PriorInit: c.PriorInit, PriorMax: c.PriorMaxCycle, PriorSame: c.PriorSameDC}
 }
 
 func fromRSCase(r *rsCase) (*val.Case, error) {
@@ -48,7 +49,7 @@ func fromRSCase(r *rsCase) (*val.Case, error) {
 	}
 	return &val.Case{Rules: rules, Text: r.Text, Texts: r.Texts, SoloTexts: r.SoloTexts, Init: r.Init, MaxCycle: r.MaxCycle, ErrOnFail: r.ErrOnFail,
 		ViaGRB: r.ViaGRB, Listeners: r.Listeners, ProbeFailAt: r.FailAt, ProbeMode: facts.FailMode(r.FailMode),
-		PriorInit: r.PriorInit, PriorMaxCycle: r.PriorMax}, nil
+		PriorInit: r.PriorInit, PriorMaxCycle: r.PriorMax, PriorSameDC: r.PriorSame}, nil
 }
 
 // rsGenCfg bundles the knobs of a validated-run property.
@@ -134,6 +135,11 @@ func maybeUsedBefore(rt *rapid.T, c *val.Case, rs *gen.RuleSet, cfg gen.StateCfg
 	c.PriorInit = c08GenState(rt, rs, cfg)
 	c.PriorMaxCycle = uint64(rapid.SampledFrom([]int{1, 1, 2, 30}).Draw(rt, "earlier_call_max_cycle"))
 	rs.Feat["instance_used_before"]++
+	if rapid.IntRange(0, 2).Draw(rt, "earlier_call_same_context") == 0 {
+		// the earlier call ran on the very data context of the validated call (callers do that)
+		c.PriorSameDC = true
+		rs.Feat["earlier_call_on_the_same_data_context"]++
+	}
 	return true
 }
 
